@@ -390,7 +390,7 @@ func raceDeath(kind string, exitCode int, stderr string) string {
 }
 
 func init() {
-	common := "plan = a shared world (3-6 bitmaps of 1-40 words in six shapes with all their rank/select indexes, 2-4 ascending key lists over {00 a b 80 ff} or all bytes with shared prefixes up to 20 bytes and their bitstr encodings / bitword words / SigBits, 2-4 level masks of height <= 8 with their paths, 1-3 joined word arrays) + 2-4 tasks x 5-40 operations drawn from a 48-function catalogue (arguments valid by construction, plus the one documented refusal: Select32 with an i its index does not cover, whose panic value is an outcome like any other; a run focuses on 1-8 functions and 3 objects; a third of the operations repeat an earlier query, a quarter repeat another task's) + a hashed schedule + 3 stack-poison patterns. Three phases: sequential reference (each op twice: two poisons, direct call vs call through a function value), simulated concurrent execution, audit (results equal, retained results intact, inputs and package tables unchanged). "
+	common := "plan = a shared world (3-6 bitmaps of 1-40 words in six shapes with all their rank/select indexes, 2-4 ascending key lists over {00 a b 80 ff} or all bytes with shared prefixes up to 20 bytes and their bitstr encodings / bitword words / SigBits, 2-4 level masks of height <= 8 with their paths, 1-3 joined word arrays) + 2-4 tasks x 5-40 operations drawn from a 48-function catalogue (arguments valid by construction, plus the one documented refusal: Select32 with an i its index does not cover, whose panic value is an outcome like any other; a run focuses on 1-8 functions and 3 objects; a third of the operations repeat an earlier query, a quarter repeat another task's) + a hashed schedule + 3 stack-poison patterns. Three phases: sequential reference (each op twice: two poisons, direct call vs call through a function value on a TWIN copy of the inputs with other surroundings and cap == len), simulated concurrent execution, audit (results equal, retained results intact, inputs and package tables unchanged, results rewritten by their owners). Placed at run index % 1024 = 200/300/400: three trees of height 20, a bitmap of 2^16..2^17 words, 2^18..300000 keys. "
 	Register(&Info{
 		Sc:   Readers{yield: false},
 		Rule: common + "R flavour: -race binary, one task at a time, hand-off by raw pipe syscalls in //go:norace code so ThreadSanitizer sees no happens-before edge between tasks; a report with a frame in the five packages is C19.race. Non-trivial: >= 2 tasks AND >= 1 context switch. Distinct: by plan hash (set).",
@@ -407,7 +407,7 @@ func init() {
 	})
 	Register(&Info{
 		Sc:   Readers{yield: true},
-		Rule: common + "Y flavour: the five packages rewritten (scratch copy) with a yield before every statement; the schedule switches tasks inside library calls; shared inputs live in a read-only mapping so any write faults (C19.write). Non-trivial: >= 2 tasks AND >= 1 context switch. Distinct: by plan hash (set).",
+		Rule: common + "Y flavour: the five packages rewritten (scratch copy) with a yield before every statement; the schedule switches tasks inside library calls; sync.Mutex/RWMutex/Once/WaitGroup replaced by cooperative stand-ins and go statements by simulated tasks (the sequential phases run under the scheduler too); shared inputs live in a read-only mapping so any write faults (C19.write). Non-trivial: >= 2 tasks AND >= 1 context switch. Distinct: by plan hash (set).",
 		NonTrivial: func(c *engine.RunCtx) bool {
 			return c.Tasks >= 2 && c.Switches >= 1
 		},
